@@ -90,7 +90,9 @@ func isSeqField(fv *types.Var) bool {
 	return false
 }
 
-func c07WrapSafe(w *World, r *Report, fns []*ssa.Function) {
+func c07WrapSafe(w *World, r *Report, fns []*ssa.Function) { ruleWrapSafe(w, r, "R07.1", fns) }
+
+func ruleWrapSafe(w *World, r *Report, rule string, fns []*ssa.Function) {
 	// seed: loads of seq fields and elements of ack lists; propagate through phi, +/- const, uint16 parameters of
 	// functions that receive a seq value
 	for _, fn := range fns {
@@ -171,7 +173,7 @@ func c07WrapSafe(w *World, r *Report, fns []*ssa.Function) {
 				}
 			}
 		})
-		r.Check(bad == "", "R07.1", "func:"+ssaFuncKey(fn)+"|seq-uses", w.Pos(fn.Pos()), fmt.Sprintf("%d arithmetic/comparison use(s) of sequence numbers, all ==, != or +/- constant", uses), bad, "seq_values", len(seq), "uses", uses)
+		r.Check(bad == "", rule, "func:"+ssaFuncKey(fn)+"|seq-uses", w.Pos(fn.Pos()), fmt.Sprintf("%d arithmetic/comparison use(s) of sequence numbers, all ==, != or +/- constant", uses), bad, "seq_values", len(seq), "uses", uses)
 	}
 }
 
